@@ -67,7 +67,9 @@ BuilderAccepts(c) ==
     /\ c.first >= 1 /\ c.first <= MaxTtl /\ c.max <= MaxTtl
     /\ c.initseq <= MaxInitSeq
 \* the start of the tracer: Channel::connect and the size check of the first dispatch
+\* (as repaired, F28: the paris and dublin sequence fields cannot be set on an unprivileged datagram socket)
 StartAccepts(c) ==
+    /\ (c.proto = "udp" /\ c.strat # "classic" => c.priv)
     /\ c.psize <= MaxPacket
     /\ (c.proto \in {"icmp", "udp"} /\ c.first <= c.max /\ c.inflight > 0) => c.psize >= MinPacket(c.fam, c.proto)
 
@@ -76,6 +78,7 @@ Supported(c) ==
     /\ c.first >= 1                                                  \* hops are indexed by ttl - 1
     /\ (c.proto = "udp" => c.ports # "none" /\ ~(c.strat = "classic" /\ c.ports = "both"))
     /\ (c.proto = "tcp" => c.ports \in {"src", "dest"})
+    /\ (c.proto = "udp" /\ c.strat # "classic" => c.priv)            \* the sequence rides in fields only a raw socket can set
     /\ c.initseq <= MaxInitSeq                                       \* room for a round's sequences below 65535
 
 Outcome(c) == IF ~BuilderAccepts(c) THEN "reject-builder"
